@@ -25,6 +25,8 @@ def nsStream : String := "http://etherx.jabber.org/streams"
 def nsClient : String := "jabber:client"
 def nsServer : String := "jabber:server"
 def nsStanzas : String := "urn:ietf:params:xml:ns:xmpp-stanzas"
+/-- namespace of the defined stream error conditions and of `<text/>` -/
+def nsStreams : String := "urn:ietf:params:xml:ns:xmpp-streams"
 
 /-- error classes with which the session can end -/
 inductive Err
@@ -79,14 +81,35 @@ def Fail.rd : Fail → Rd
   | .err e => .err e
   | .eof => .eof
 
-/-- condition carried by a stream error whose start tag has just been read: the local name of
-the first child element (`stream.Error.UnmarshalXML`); `none` when the error element is not
-closed in the remaining input (the decoder then reports a syntax error) -/
-def seCond : List Tok → Option String
-  | .start n _ :: _ => some n.loc
-  | .stop _ :: _ => some ""
-  | _ :: ts => seCond ts
-  | [] => none
+/-- the tokens after the end tag of an element whose start tag was just read (`d` = open nested
+elements): `d.Skip()` / `DecodeElement` of `encoding/xml`; `none` = the input ends first -/
+def skipElem : Nat → List Tok → Option (List Tok)
+  | _, [] => none
+  | d, .start .. :: ts => skipElem (d + 1) ts
+  | 0, .stop _ :: ts => some ts
+  | d + 1, .stop _ :: ts => skipElem d ts
+  | d, _ :: ts => skipElem d ts
+
+/-- the loop of `stream.Error.UnmarshalXML` over the children of a received `<stream:error>`:
+a child in the stream-error namespace other than `<text/>` is the *condition* (its local name;
+the last one wins), `<text/>` is decoded and consumed, a child in any other namespace — an
+**application-specific condition** (RFC 6120 §4.9.4) — is skipped as a whole, at any position,
+with whatever it contains; text, comments … between the children are ignored; the end tag of
+the error ends the loop.  `cur` = the condition found so far ("" = none); the fuel is the number
+of tokens (every round consumes at least one). -/
+def seCondF : Nat → String → List Tok → Option String
+  | 0, _, _ => none
+  | _, _, [] => none
+  | _, cur, .stop _ :: _ => some cur
+  | f + 1, cur, .start n _ :: ts =>
+    (match skipElem 0 ts with
+     | some rest => seCondF f (if n.space == nsStreams && n.loc != "text" then n.loc else cur) rest
+     | none => none)
+  | f + 1, cur, _ :: ts => seCondF f cur ts
+
+/-- condition carried by a stream error whose start tag has just been read; `none` when the
+error element is not closed in the remaining input (the decoder then reports a syntax error) -/
+def seCond (ts : List Tok) : Option String := seCondF (ts.length + 1) "" ts
 
 /-- does the element whose start tag was just read close in `ts`? (`d` = open nested elements) -/
 def closes : Nat → List Tok → Bool
@@ -238,6 +261,9 @@ inductive Ret | ok | fail | eof | readErr
   /-- errors that *wrap* a sentinel (`fmt.Errorf("…: %w", x)`) or join it with another error:
   they are not identical to the sentinel, `errors.Is` / `errors.As` still find it -/
   | wrapEof | wrapUeof | wrapStanza | wrapStream | joinEof
+  /-- the handler returns the error of `jid.Parse` on the stanza's to / from attribute (what the
+  multiplexer's routers do when `stanza.NewIQ` / `NewMessage` / `NewPresence` fail) -/
+  | addrErr
   deriving DecidableEq, Repr, Inhabited
 
 structure Prog where
@@ -246,8 +272,10 @@ structure Prog where
   /-- the handler first closes the session's output (`Session.Close`), before reading or
   writing anything: a local close between two elements -/
   close : Bool := false
-  /-- the handler first calls `SetCloseDeadline`: 0 = no, 1 = a time in the future, 2 = in the past -/
-  dl : Nat := 0
+  /-- the handler first calls `SetCloseDeadline`, once per entry, in this order: 1 = a time in the
+  future, 2 = a time in the past, 3 = a time in the near future and then waits until it has
+  passed (0 = no call) -/
+  dls : List Nat := []
   /-- the handler first edits the `*xml.StartElement` it was handed in place (it is a pointer to
   the serve loop's own variable): which edit (type / name / id / attributes …, see
   harness/c08/proto.go `mutate`); 0 = none.  Nothing in the model reads this field: what the
@@ -389,6 +417,7 @@ def handleElem (cfg : Cfg) (n : Name) (as : List Attr) (rs1 : RS) (prog : Prog) 
   | .wrapStanza => .stop (some inv) ws1.out (.error .handler)
   | .joinEof => .stop (some inv) ws1.out (.error .handler)
   | .wrapStream => .stop (some inv) ws1.out (.error (.streamError "policy-violation"))
+  | .addrErr => .stop (some inv) ws1.out (.error .badJid)
   | .readErr =>
     (match es1.rs.sticky with
      | some (.err e) => .stop (some inv) ws1.out (.error e)
@@ -487,10 +516,13 @@ def addrOf (cfg : Cfg) (as : List Attr) (l : String) : Option (Option String) :=
 stanza namespace is the stream's: `p` is the program of the registered IQ handler -/
 def muxEffective (reg : Bool) (cfg : Cfg) (n : Name) (as : List Attr) (body : List Tok) (p : Prog) : Prog :=
   if !isStanza n cfg.ns then Prog.nop
-  else if n.loc != "iq" then Prog.nop
   else
+    -- every router first turns the start element into a stanza value: an address that does not
+    -- parse ends the routing with the parse error, whatever the type and wherever the attribute
+    -- stands among the others; nothing is written
     match addrOf cfg as "from", addrOf cfg as "to" with
     | some frm, some to =>
+      if n.loc != "iq" then Prog.nop else
       let typ := getTyp as
       let run : Prog :=
         if reg && isDefinedIqTyp typ then p.writesOnly
@@ -500,7 +532,37 @@ def muxEffective (reg : Bool) (cfg : Cfg) (n : Name) (as : List Attr) (body : Li
        | .bad => { ops := List.replicate (payloadReads body) .read, ret := .readErr }
        | .none => if typ == "result" then run else { ops := [], ret := .eof }
        | .elem _ => run)
-    | _, _ => { ops := [], ret := .fail }
+    | _, _ => { ops := [], ret := .addrErr }
+
+/-- `iq.Result(nil)`: the reply a handler builds from the IQ `stanza.NewIQ` parsed — the request
+with to/from swapped, type result and **the id exactly as it was read** -/
+def resultReply (n : Name) (id : String) (to frm : Option String) : List Tok :=
+  [ .start ⟨n.space, "iq"⟩
+      ([attr "type" "result"] ++ (match to with | some c => [attr "to" c] | none => [])
+        ++ (match frm with | some c => [attr "from" c] | none => [])
+        ++ (if id != "" then [attr "id" id] else [])),
+    .stop ⟨n.space, "iq"⟩ ]
+
+/-- the program the session's handler effectively runs when it is a `mux.ServeMux` with an IQ
+handler registered for the wildcard payload of get and set that answers with `iq.Result(nil)`
+— what most IQ handlers do: the reply is built from the parsed `stanza.IQ`, not from the start
+element (nothing is registered for result / error) -/
+def muxAnswering (cfg : Cfg) (n : Name) (as : List Attr) (body : List Tok) : Prog :=
+  if !isStanza n cfg.ns then Prog.nop
+  else
+    match addrOf cfg as "from", addrOf cfg as "to" with
+    | some frm, some to =>
+      if n.loc != "iq" then Prog.nop else
+      let typ := getTyp as
+      let run : Prog :=
+        if isRequestTyp typ then { ops := [.write (resultReply n (getId as) frm to)], ret := .ok }
+        else if isReplyTyp typ then Prog.nop
+        else { ops := [.write (fallbackReply n (getId as) frm to)], ret := .ok }
+      (match firstPayload body with
+       | .bad => { ops := List.replicate (payloadReads body) .read, ret := .readErr }
+       | .none => if typ == "result" then run else { ops := [], ret := .eof }
+       | .elem _ => run)
+    | _, _ => { ops := [], ret := .addrErr }
 
 /-- the first element of the input with the from normalisation applied, and the tokens after
 its start tag -/
@@ -653,6 +715,17 @@ def outAfter (st : OutSt) (prog : Prog) (w : List Tok) : OutSt :=
     | .opn => if leavesBroken w then .broken else .opn
     | s => s
 
+/-- has the deadline of this `SetCloseDeadline` call passed when the handler returns -/
+def isPastDl (d : Nat) : Bool := d == 2 || d == 3
+
+/-- the input context after a sequence of `SetCloseDeadline` calls: every call **replaces** the
+context (`context.WithDeadline(context.Background(), t)`, the old one is cancelled and dropped),
+so a later deadline extends or shortens an earlier one — also one that has already passed;
+`e` = has the context ended before the calls -/
+def expiredAfter : List Nat → Bool → Bool
+  | [], e => e
+  | d :: ds, e => expiredAfter ds (if isPastDl d then true else if d == 1 then false else e)
+
 /-- `Serve` with the state of the output and the close deadline: `expired` = the input context
 has ended (`SetCloseDeadline` with a time in the past), checked before every element; a
 deadline in the future changes nothing -/
@@ -665,11 +738,16 @@ def serveFC (cfg : Cfg) : Nat → OutSt → Bool → RS → List Prog → Out
     | .stop inv w res => { invs := inv.toList, written := w, result := res }
     | .next inv w rs' =>
       let o := serveFC cfg fuel (if inv.isSome then outAfter st p (handleInputStream cfg rs p).written else st)
-        (inv.isSome && p.dl == 2) rs' (if inv.isSome then progs.tail else progs)
+        (inv.isSome && expiredAfter p.dls false) rs' (if inv.isSome then progs.tail else progs)
       { invs := inv.toList ++ o.invs, written := w ++ o.written, result := o.result }
 
 def serveC (cfg : Cfg) (closed : Bool) (inp : List Tok) (progs : List Prog) : Out :=
   serveFC cfg (inp.length + 1) (if closed then .closed else .opn) false (RS.init inp) progs
+
+/-- `serveC` after the application called `SetCloseDeadline` (once per entry of `pre`) before
+`Serve` started -/
+def serveCD (cfg : Cfg) (closed : Bool) (pre : List Nat) (inp : List Tok) (progs : List Prog) : Out :=
+  serveFC cfg (inp.length + 1) (if closed then .closed else .opn) (expiredAfter pre false) (RS.init inp) progs
 
 /-! ### a connection that refuses writes
 
@@ -704,7 +782,6 @@ def serveW (cfg : Cfg) (left : Nat) (inp : List Tok) (progs : List Prog) : Out :
 
 /-! ### tokens of the regenerated verdict table (`Generated/C08.lean`) -/
 
-def nsStreams : String := "urn:ietf:params:xml:ns:xmpp-streams"
 def nsFraming : String := "urn:ietf:params:xml:ns:xmpp-framing"
 
 /-- the token (and what follows it) a kind name of the fact table stands for -/
@@ -726,6 +803,28 @@ def factTok : String → Option (Tok × List Tok)
   -- elements of the WebSocket framing namespace are ordinary content on a TCP stream (ws = false)
   | "framing-open" => some (.start ⟨nsFraming, "open"⟩ [], [.stop ⟨nsFraming, "open"⟩])
   | "framing-close" => some (.start ⟨nsFraming, "close"⟩ [], [.stop ⟨nsFraming, "close"⟩])
+  -- received stream errors with application-specific conditions (children in another namespace)
+  | "se-app-after" => some (.start ⟨nsStream, "error"⟩ [],
+      [.start ⟨nsStreams, "conflict"⟩ [], .stop ⟨nsStreams, "conflict"⟩,
+       .start ⟨"urn:example", "replaced-by-new-login"⟩ [], .stop ⟨"urn:example", "replaced-by-new-login"⟩,
+       .stop ⟨nsStream, "error"⟩])
+  | "se-app-first" => some (.start ⟨nsStream, "error"⟩ [],
+      [.start ⟨"urn:example", "app"⟩ [], .start ⟨"urn:example", "detail"⟩ [], .chars "x",
+       .stop ⟨"urn:example", "detail"⟩, .stop ⟨"urn:example", "app"⟩,
+       .start ⟨nsStreams, "host-gone"⟩ [], .stop ⟨nsStreams, "host-gone"⟩, .stop ⟨nsStream, "error"⟩])
+  | "se-app-text" => some (.start ⟨nsStream, "error"⟩ [],
+      [.start ⟨nsStreams, "not-authorized"⟩ [], .stop ⟨nsStreams, "not-authorized"⟩,
+       .start ⟨nsStreams, "text"⟩ [⟨⟨"http://www.w3.org/XML/1998/namespace", "lang"⟩, "en"⟩], .chars "bye",
+       .stop ⟨nsStreams, "text"⟩,
+       .start ⟨"urn:example", "too-many"⟩ [], .start ⟨"urn:example", "n"⟩ [], .chars "3", .stop ⟨"urn:example", "n"⟩,
+       .start ⟨"urn:example", "n"⟩ [], .stop ⟨"urn:example", "n"⟩, .stop ⟨"urn:example", "too-many"⟩,
+       .stop ⟨nsStream, "error"⟩])
+  | "se-text-first" => some (.start ⟨nsStream, "error"⟩ [],
+      [.start ⟨nsStreams, "text"⟩ [], .chars "bye", .stop ⟨nsStreams, "text"⟩,
+       .start ⟨nsStreams, "system-shutdown"⟩ [], .stop ⟨nsStreams, "system-shutdown"⟩, .stop ⟨nsStream, "error"⟩])
+  | "se-app-only" => some (.start ⟨nsStream, "error"⟩ [],
+      [.start ⟨"urn:example", "only"⟩ [], .stop ⟨"urn:example", "only"⟩, .stop ⟨nsStream, "error"⟩])
+  | "se-empty" => some (.start ⟨nsStream, "error"⟩ [], [.stop ⟨nsStream, "error"⟩])
   | _ => none
 
 def Rd.name : Rd → String
